@@ -355,8 +355,29 @@ def string_tok(draw, continuation=True):
             s, d = draw(spelled_name([draw(st.sampled_from(NMCHAR))], True, False))
             if not s.startswith('\\'):
                 s = '\\%x ' % ord(d)
+            follower = draw(st.sampled_from(['ws', 'ws', 'continuation', 'nonhex', 'quote']))
+            if follower != 'ws' and (continuation or follower != 'continuation'):
+                # an escape of fewer than six digits without the optional white space behind it
+                hexd = '%x' % ord(d)
+                s = '\\' + hexd.rjust(draw(st.integers(len(hexd), 5)), '0')
             if s[-1] not in WS1:
-                s += ' '
+                if len(s) >= 7:
+                    follower = 'ws'
+                if follower == 'continuation' and continuation:
+                    # the escape ends at the backslash; the continuation disappears, whatever comes next is ordinary text
+                    s += '\\' + draw(st.sampled_from(['\n', '\r\n', '\f']))
+                    nxt = draw(st.sampled_from('b1 Fg'))
+                    s += nxt
+                    d += nxt
+                elif follower == 'nonhex':
+                    nxt = draw(st.sampled_from('gXz-(!'))
+                    s += nxt
+                    d += nxt
+                elif follower == 'quote':
+                    s += other
+                    d += other
+                else:
+                    s += ' '
             parts_src.append(s)
             parts_val.append(d)
         else:  # escaped backslash followed by a non-hex character
